@@ -86,9 +86,12 @@ inductive Val
   | int (i : Int)
   /-- `repr` = `str(value)` -/
   | float (n : NumV) (repr : Str)
+  /-- `repr` = `repr(value)`; the domain predicate asks that it be a literal
+      denoting `s` (it is for CPython's `repr`: `str_repr_roundtrips`) -/
   | str (s : Str) (repr : Str)
-  /-- `bytes` or a subclass (`XmlHexBinary`, `XmlBase64Binary`); `repr` is `b'…'` -/
-  | bytes (cls : ClsRef) (repr : Str)
+  /-- `bytes` or a subclass (`XmlHexBinary`, `XmlBase64Binary`): the byte values
+      and `repr(value)` = `b'…'`, again required to denote them -/
+  | bytes (cls : ClsRef) (bs : List Nat) (repr : Str)
   /-- `xml.etree.ElementTree.QName`; `text` is `value.text` -/
   | qname (text : Str)
   /-- a value of class `cls` whose `repr` is the constructor call
@@ -158,7 +161,7 @@ def leafEq (a b : Val) : Bool :=
     | .str s _, .qname t => s == t
     | .qname s, .str t _ => s == t
     | .qname s, .qname t => s == t
-    | .bytes _ r, .bytes _ r' => r == r'
+    | .bytes _ bs _, .bytes _ bs' _ => bs == bs'
     | .enum c m, .enum c' m' => decide (c = c') && m == m'
     | .opaque c cal ar _, .opaque c' cal' ar' _ => decide (c = c') && cal == cal' && ar == ar'
     | _, _ => false
@@ -216,6 +219,18 @@ def hashableL : List Val → Bool
 end
 
 /-! ## The emitted expression -/
+
+/-- an ASCII identifier: `[A-Za-z_][A-Za-z0-9_]*` -/
+def asciiIdent : Str → Bool
+  | [] => false
+  | c :: r =>
+    let letter (c : Char) : Bool := (65 ≤ c.toNat && c.toNat ≤ 90) || (97 ≤ c.toNat && c.toNat ≤ 122) || c = '_'
+    letter c && r.all fun d => letter d || (48 ≤ d.toNat && d.toNat ≤ 57)
+
+/-- can `Cls.<name>` be written and mean the member?  The model covers ASCII
+identifiers that are not keywords (`E.a-b` is a subtraction, `E.class` a syntax
+error; non-ASCII identifiers are left to the interpreter) -/
+def enumNameOK (m : Str) : Bool := asciiIdent m && !Tables.pyKeywords.contains m
 
 /-- the four types `collections.is_array` accepts and `repr_array` renders -/
 inductive ArrKind
@@ -425,7 +440,7 @@ def render (W : World) : Val → PyExpr
   | .int i => .lit (.int i) (intStr i) intT
   | .float n r => if n.isFin then .lit (.float n r) r floatT else .floatCall n r
   | .str s r => .lit (.str s r) r strT
-  | .bytes c r => .lit (.bytes bytesT r) r c
+  | .bytes c bs r => .lit (.bytes bytesT bs r) r c
   | .qname t => .qnameCall t
   | .opaque c callee args n => .opaqueCall c callee args n
   | .enum c m => .enumRef c m
@@ -480,6 +495,10 @@ inductive Err
   | nameError
   | attributeError
   | typeError
+  /-- the rendered source does not compile -/
+  | syntaxError
+  /-- `xsdata.exceptions.SerializerError`, raised by `render` itself -/
+  | serializerError
   /-- outside what this model predicts -/
   | unmodelled
 deriving DecidableEq, Repr
@@ -488,6 +507,8 @@ def Err.name : Err → Str
   | .nameError => cs!"NameError"
   | .attributeError => cs!"AttributeError"
   | .typeError => cs!"TypeError"
+  | .syntaxError => cs!"SyntaxError"
+  | .serializerError => cs!"SerializerError"
   | .unmodelled => cs!"unmodelled"
 
 /-- namespace after the import lines ran: `(module, name)` in execution order;
@@ -591,6 +612,143 @@ def decodeCp : DqState → Str → Option (List Nat)
       let v := acc * 16 + d
       if left ≤ 1 then (decodeCp .normal r).map (v :: ·) else decodeCp (.hex (left - 1) v) r
 
+/-! ### `repr(str)`, `repr(bytes)` and the parser's reading of such a literal
+
+`literal_value` falls back to `repr(value)`; for `str` and `bytes` leaves the
+model computes that text (`pyReprStr`, `pyReprBytes`, CPython's
+`unicode_repr` / `bytes_repr`) and reads it back with `decodeLit`, the general
+form of the scanner above: either quote, `\xhh`, `\uhhhh`, `\Uhhhhhhhh`. -/
+
+def hardEscL (c : Char) : Bool :=
+  ('0'.toNat ≤ c.toNat && c.toNat ≤ '7'.toNat) || c = 'N' || c = '\n' || c = '\r' || c.toNat = 0
+
+/-- a raw character that ends or breaks a literal quoted with `q` -/
+def rawBadQ (q c : Char) : Bool := c = q || c = '\n' || c = '\r' || c.toNat = 0
+
+/-- body of a `q…q` string literal → the `str` it denotes -/
+def decodeLit (q : Char) : DqState → Str → Option Str
+  | .normal, [] => some []
+  | .esc, [] => Option.none
+  | .hex _ _, [] => Option.none
+  | .normal, c :: r =>
+    if c = '\\' then decodeLit q .esc r
+    else if rawBadQ q c then Option.none
+    else (decodeLit q .normal r).map (c :: ·)
+  | .esc, c :: r =>
+    if c = 'x' then decodeLit q (.hex 2 0) r
+    else if c = 'u' then decodeLit q (.hex 4 0) r
+    else if c = 'U' then decodeLit q (.hex 8 0) r
+    else if hardEscL c then Option.none
+    else match simpleEsc c with
+      | some d => (decodeLit q .normal r).map (d :: ·)
+      | Option.none => (decodeLit q .normal r).map (fun t => '\\' :: c :: t)
+  | .hex left acc, c :: r =>
+    match hexVal c with
+    | Option.none => Option.none
+    | some d =>
+      let v := acc * 16 + d
+      if left ≤ 1 then
+        (if isSurrogate v || decide (0x10FFFF < v) then Option.none
+         else (decodeLit q .normal r).map (Char.ofNat v :: ·))
+      else decodeLit q (.hex (left - 1) v) r
+
+/-- split `q body q` -/
+def unquote (t : Str) : Option (Char × Str) :=
+  match t with
+  | q :: rest =>
+    if (q = '\'' || q = '"') && rest.getLast? == some q then some (q, rest.dropLast) else Option.none
+  | [] => Option.none
+
+/-- a whole `'…'` / `"…"` literal → the `str` it denotes -/
+def decodeStrLit (t : Str) : Option Str :=
+  match unquote t with
+  | some (q, body) => decodeLit q .normal body
+  | Option.none => Option.none
+
+def hex2 (n : Nat) : Str := [hexDigit (n / 16 % 16), hexDigit (n % 16)]
+def hex4 (n : Nat) : Str := hex2 (n / 256) ++ hex2 n
+def hex8 (n : Nat) : Str := hex4 (n / 65536) ++ hex4 n
+
+/-- the quote `repr` picks: `"` only when the text has a `'` and no `"` -/
+def reprQuote (s : Str) : Char := if s.contains '\'' && !s.contains '"' then '"' else '\''
+
+/-- `unicode_repr` for one character; `pr` is `str.isprintable` on non-ASCII -/
+def reprChar (pr : Char → Bool) (q c : Char) : Str :=
+  if c = q || c = '\\' then ['\\', c]
+  else if c = '\t' then cs!"\\t" else if c = '\n' then cs!"\\n" else if c = '\r' then cs!"\\r"
+  else if c.toNat < 32 || c.toNat = 127 then '\\' :: 'x' :: hex2 c.toNat
+  else if c.toNat < 127 then [c]
+  else if pr c then [c]
+  else if c.toNat ≤ 0xff then '\\' :: 'x' :: hex2 c.toNat
+  else if c.toNat ≤ 0xffff then '\\' :: 'u' :: hex4 c.toNat
+  else '\\' :: 'U' :: hex8 c.toNat
+
+def reprBody (pr : Char → Bool) (q : Char) : Str → Str
+  | [] => []
+  | c :: r => reprChar pr q c ++ reprBody pr q r
+
+/-- `repr(s)` for a `str` -/
+def pyReprStr (pr : Char → Bool) (s : Str) : Str :=
+  reprQuote s :: reprBody pr (reprQuote s) s ++ [reprQuote s]
+
+/-- `bytes_repr`: the quote rule of `str`, `\\xhh` for everything outside
+printable ASCII -/
+def reprQuoteB (bs : List Nat) : Char := if bs.contains 39 && !bs.contains 34 then '"' else '\''
+
+def reprByte (q : Char) (b : Nat) : Str :=
+  if b = q.toNat || b = 92 then ['\\', Char.ofNat b]
+  else if b = 9 then cs!"\\t" else if b = 10 then cs!"\\n" else if b = 13 then cs!"\\r"
+  else if b < 32 || 127 ≤ b then '\\' :: 'x' :: hex2 b
+  else [Char.ofNat b]
+
+def reprBodyB (q : Char) : List Nat → Str
+  | [] => []
+  | b :: r => reprByte q b ++ reprBodyB q r
+
+/-- `repr(b)` for a `bytes` -/
+def pyReprBytes (bs : List Nat) : Str :=
+  'b' :: reprQuoteB bs :: reprBodyB (reprQuoteB bs) bs ++ [reprQuoteB bs]
+
+def hardEscB (c : Char) : Bool :=
+  ('0'.toNat ≤ c.toNat && c.toNat ≤ '7'.toNat) || c = '\n' || c = '\r' || c.toNat = 0 || decide (128 ≤ c.toNat)
+
+/-- body of a `b q…q` literal → the byte values: only `\\xhh` among the numeric
+escapes (`\\u`, `\\N` are not escapes in bytes), source characters must be ASCII -/
+def decodeLitB (q : Char) : DqState → Str → Option (List Nat)
+  | .normal, [] => some []
+  | .esc, [] => Option.none
+  | .hex _ _, [] => Option.none
+  | .normal, c :: r =>
+    if c = '\\' then decodeLitB q .esc r
+    else if rawBadQ q c || decide (128 ≤ c.toNat) then Option.none
+    else (decodeLitB q .normal r).map (c.toNat :: ·)
+  | .esc, c :: r =>
+    if c = 'x' then decodeLitB q (.hex 2 0) r
+    else if hardEscB c then Option.none
+    else match simpleEsc c with
+      | some d => (decodeLitB q .normal r).map (d.toNat :: ·)
+      | Option.none => (decodeLitB q .normal r).map (fun t => 92 :: c.toNat :: t)
+  | .hex left acc, c :: r =>
+    match hexVal c with
+    | Option.none => Option.none
+    | some d =>
+      let v := acc * 16 + d
+      if left ≤ 1 then (decodeLitB q .normal r).map (v :: ·) else decodeLitB q (.hex (left - 1) v) r
+
+def decodeBytesLit (t : Str) : Option (List Nat) :=
+  match t with
+  | c :: lit =>
+    if c = 'b' then
+      match unquote lit with
+      | some (q, body) => decodeLitB q .normal body
+      | Option.none => Option.none
+    else Option.none
+  | [] => Option.none
+
+/-- `str.isprintable()` for a non-ASCII character, from the interpreter's table -/
+def tblPrintable (c : Char) : Bool :=
+  !(Tables.unprintableRanges.any fun ab => ab.1 ≤ c.toNat && c.toNat ≤ ab.2)
+
 def kwGet (n : Str) : List (Str × Val) → Option Val
   | [] => Option.none
   | (k, v) :: r => if k == n then some v else kwGet n r
@@ -620,7 +778,19 @@ def kwNamesOK (fs : List FieldSpec) (kw : List (Str × Val)) : Bool :=
 
 mutual
 def eval (W : World) (env : Env) : PyExpr → Except Err Val
-  | .lit v _ _ => .ok v
+  | .lit v t _ =>
+    -- a `str` / `bytes` token is read by the parser; other tokens are taken to
+    -- denote their payload (trusted: int, float, None, True/False)
+    match v with
+    | .str _ _ =>
+      match decodeStrLit t with
+      | some s => .ok (.str s t)
+      | Option.none => .error .unmodelled
+    | .bytes c _ _ =>
+      match decodeBytesLit t with
+      | some bs => .ok (.bytes c bs t)
+      | Option.none => .error .unmodelled
+    | _ => .ok v
   | .arr .list xs =>
     match evalL W env xs with
     | .error e => .error e
@@ -677,7 +847,9 @@ def eval (W : World) (env : Env) : PyExpr → Except Err Val
     | .error e => .error e
     | .ok r =>
       match W.find r with
-      | some ⟨_, .enum ms⟩ => if ms.contains m then .ok (.enum r m) else .error .attributeError
+      | some ⟨_, .enum ms⟩ =>
+        if !enumNameOK m then .error .unmodelled   -- `Cls.<m>` is not an attribute reference
+        else if ms.contains m then .ok (.enum r m) else .error .attributeError
       | some ⟨_, .model fs⟩ =>
         -- class attribute: a field default or a nested class would be found
         if fs.any (fun f => f.name == m) || (W.find ⟨r.module, r.path ++ [m]⟩).isSome
@@ -731,6 +903,9 @@ mutual
 /-- does compiling the text depend on string-literal decoding this model does
 not cover (then the compile-time `SyntaxError` would pre-empt everything) -/
 def PyExpr.syntaxRisk : PyExpr → Bool
+  | .enumRef _ m => !enumNameOK m
+  | .lit (.str _ _) t _ => (decodeStrLit t).isNone
+  | .lit (.bytes _ _ _) t _ => (decodeBytesLit t).isNone
   | .qnameCall t => (decodeDq .normal (jsonBody t)).isNone
   | .arr _ xs => riskL xs
   | .dict kvs => riskKV kvs
@@ -747,19 +922,63 @@ def riskKw : List (Str × PyExpr) → Bool
   | (_, e) :: r => e.syntaxRisk || riskKw r
 end
 
+mutual
+/-- how many brackets are open at once, at most, while the expression is read
+(CPython's tokenizer gives up beyond `Tables.parserMaxNesting`) -/
+def PyExpr.depth : PyExpr → Nat
+  | .lit _ _ _ => 0
+  | .enumRef _ _ => 0
+  | .floatCall _ _ => 1
+  | .qnameCall _ => 1
+  | .opaqueCall _ _ _ _ => 1
+  | .arr .frozenset [] => 1
+  | .arr .frozenset (x :: xs) => 2 + depthL (x :: xs)   -- `frozenset({ … })`
+  | .arr _ xs => 1 + depthL xs
+  | .dict kvs => 1 + depthKV kvs
+  | .call _ kws => 1 + depthKw kws
+def depthL : List PyExpr → Nat
+  | [] => 0
+  | x :: xs => max x.depth (depthL xs)
+def depthKV : List (PyExpr × PyExpr) → Nat
+  | [] => 0
+  | (k, v) :: r => max (max k.depth v.depth) (depthKV r)
+def depthKw : List (Str × PyExpr) → Nat
+  | [] => 0
+  | (_, e) :: r => max e.depth (depthKw r)
+end
+
 /-! ## `PycodeSerializer.render(obj, var_name)` and what running it gives -/
 
+/-- `build_imports` refuses a set of types in which one outermost name belongs
+to two modules (`builtins` counts as a module: a class named `float` next to a
+float value is refused too) -/
+def clashFree (ts : List ClsRef) : Bool :=
+  ts.all fun t => ts.all fun u => t.path.headD [] != u.path.headD [] || t.module == u.module
+
+/-- does `render(obj)` return (rather than raise `SerializerError`)? -/
+def renders (W : World) (v : Val) : Bool := clashFree (render W v).types
+
+/-- the text `render` returns when it returns -/
 def source (W : World) (v : Val) (var : Str) : Str :=
   let e := render W v
   importsText e.types ++ cs!"\n\n" ++ var ++ cs!" = " ++ e.text 0 ++ cs!"\n"
 
+/-- `PycodeSerializer.render(obj, var)` -/
+def sourceE (W : World) (v : Val) (var : Str) : Except Err Str :=
+  if renders W v then .ok (source W v var) else .error .serializerError
+
 /-- the namespace the expression is evaluated in -/
 def importsEnv (W : World) (v : Val) : Env := imports (render W v).types
 
-/-- `exec(source, {})` then `ns[var]` -/
-def run (W : World) (v : Val) : Except Err Val := eval W (importsEnv W v) (render W v)
+/-- the rendered expression does not nest brackets deeper than the parser allows -/
+def nestingOK (W : World) (v : Val) : Bool := (render W v).depth ≤ Tables.parserMaxNesting
+
+/-- `exec(source, {})` then `ns[var]`: the source is compiled first -/
+def run (W : World) (v : Val) : Except Err Val :=
+  if nestingOK W v then eval W (importsEnv W v) (render W v) else .error .syntaxError
 
 def outcome (W : World) (v : Val) : Str :=
+  if !renders W v then cs!"refused:SerializerError" else
   if (render W v).syntaxRisk then cs!"unmodelled" else
   match run W v with
   | .ok v' => if pyEq v' v then cs!"equal" else cs!"unequal"
